@@ -600,7 +600,11 @@ impl<const K: usize> AffTree<K> {
                 .map(|i| node.aff.mat.index_axis(Axis(1), *i).insert_axis(Axis(1)))
                 .collect_vec();
 
-            node.aff.mat = concatenate(Axis(1), restricted_mat.as_slice()).unwrap();
+            node.aff.mat = if restricted_mat.is_empty() {
+                ndarray::Array2::zeros((node.aff.mat.nrows(), 0))
+            } else {
+                concatenate(Axis(1), restricted_mat.as_slice()).unwrap()
+            };
             node.state = NodeState::Indeterminate;
         }
 
